@@ -154,9 +154,14 @@ def h_samples(B, ndata, nsamples):
 
 
 def _seqmap(f, in_axes=(None, 0)):
-    """plain Python map over the leading axis of the keys (the white-noise stub is consumed in call order)"""
-    def g(pos, keys):
-        outs = [f(pos, keys[i]) for i in range(keys.shape[0])]
+    """plain Python map over the leading axis of the mapped arguments (the white-noise stub is consumed in call order)"""
+    def g(*args):
+        mapped = [i for i, ax in enumerate(in_axes) if ax is not None]
+        n = jax.tree_util.tree_leaves(args[mapped[0]])[0].shape[0]
+        outs = []
+        for k in range(n):
+            a = [jax.tree_util.tree_map(lambda x: x[k], arg) if i in mapped else arg for i, arg in enumerate(args)]
+            outs.append(f(*a))
         return jax.tree_util.tree_map(lambda *a: jnp.stack(a), *outs)
     return g
 
